@@ -251,6 +251,7 @@ def set_patches(patches, pixels, patch_centers, offset, offset_index):
     for patches_with_offsets, point in zip(patches, patch_centers):
         patch = patches_with_offsets[offset_index]
         p = point + offset[0]
-        p_r = int(p[0])
-        p_c = int(p[1])
+        # round to the nearest pixel, as extract_patches does
+        p_r = int(np.round(p[0]))
+        p_c = int(np.round(p[1]))
         pixels[:, p_r - l_r : p_r + h_r, p_c - l_c : p_c + h_c] = patch
